@@ -4,6 +4,8 @@ CONSTANTS
   Threads = {1, 2}
   CompilerScope = "per connection"
   ColumnMemo = "none"
+  ParserScope = "per call"
+  ScanMemo = "none"
   JobSet = "compiler"
 INIT Init
 NEXT Next
